@@ -120,6 +120,12 @@ Step(e) ==
                    \cup (IF \A c \in held : CLive(rec, e.t, c) => c \in ArrSet(Arr(e.ids)) THEN {} ELSE {"C29.list-missing-live-chunk"})
         IN Common(e, bad, rec, held, bound, owed, notified, slack)
     [] e.op = "mk" -> Common(e, {}, rec, held, bound, owed, notified, slack)
+    [] e.op = "hint" ->
+        \* live (multi-threaded, real-time) traces only: an arrival that another thread has already applied but whose own
+        \* event is logged a moment later; the converter announces its bound ahead so that projections taken in between are
+        \* judged against it (window: a few hundred milliseconds)
+        /\ bound' = [bound EXCEPT ![e.c] = Max(@, e.bd)]
+        /\ UNCHANGED <<viol, poisoned, now, cmin, cmax, rec, held, mE, owed, notified, slack, pproj, tol, nchecked>>
     [] e.op = "selfann" ->
         \* announce_chunk(c, ttl) by the operator: an announcement of the node's own, not derived from a manifest
         LET bd2 == [bound EXCEPT ![e.c] = Max(@, e.t + e.ttl)]
